@@ -11,7 +11,7 @@ CFG = {
         "assumptions": [SCORE_RANGE],
     },
     "C02": {
-        "mechanisms": ["banded.tb_left_band", "banded.cell_budget", "partial_band_calls", "band_not_containing_origin",
+        "mechanisms": ["banded.tb_left_band", "banded.tb_out_of_band_cell", "banded.cell_budget", "partial_band_calls", "band_not_containing_origin",
                        "band_not_containing_corner", "band_excluded_optimum", "full_band_calls", "sentinel_results", "get_mut_scoring_edits"],
         "thorough_passes": ["plain", "asan"],
         "assumptions": ["backbones handed to the advanced entry points stay inside their documented contract (sorted true k-mer matches or subsets, valid chains)", SCORE_RANGE],
